@@ -148,7 +148,7 @@ inductive InlineTok
   | comment (body : Str)   -- a COMMENT token; `body` = `token.string[1:]`
   | noComment              -- tokenized to the end without a comment: ""
   | error                  -- TokenError / SyntaxError (unterminated string, open bracket at the
-                           --   end of the line) before any comment: the fallback split is used
+                           --   end of the line) before any comment: "" (since repo fix 9e297b8)
   | unmodelled
   deriving DecidableEq, Repr
 
@@ -176,15 +176,26 @@ def inlineTok (l : Str) : InlineTok := tokScan st0 (lstripWs l)
 /-- is the definition line inside the modelled fragment of the inline-comment extraction? -/
 def lineModelled (l : Str) : Bool := !(l.contains '#') || inlineTok l != .unmodelled
 
-/-- `_get_inline_comment_at_line`.  For a line outside the modelled fragment (`lineModelled l =
-    false`) the value is not claimed by the model: the drivers answer `unmodelled` for such
-    sources and the theorems assume the layout grammar, on which every line is modelled. -/
+/-- `_get_inline_comment_at_line` (after repo fix 9e297b8: when the tokenizer raises before a
+    comment token was produced, the `#` of the line sits inside a string literal and there is no
+    inline comment).  For a line outside the modelled fragment (`lineModelled l = false`) the value
+    is not claimed by the model: the drivers answer `unmodelled` for such sources. -/
 def inlineComment (l : Str) : Str :=
   if !(l.contains '#') then []                         -- "#" not in line_str
   else match inlineTok l with
     | .comment body => stripWs body                    -- token.string[1:].strip()
     | .noComment => []
-    | .error => stripWs (after '#' l)                  -- line_str.split("#", maxsplit=1)[1].strip()
+    | .error => []                                     -- except (TokenError, SyntaxError): return ""
+    | .unmodelled => []
+
+/-- the rule before 9e297b8 (kept for the regression example): on a tokenizer error, everything
+    after the first `#` of the line — `line_str.split("#", maxsplit=1)[1].strip()` -/
+def inlineCommentOld (l : Str) : Str :=
+  if !(l.contains '#') then []
+  else match inlineTok l with
+    | .comment body => stripWs body
+    | .noComment => []
+    | .error => stripWs (after '#' l)
     | .unmodelled => stripWs (after '#' l)
 
 /-! ### upward scan: `_get_comment_ending_at_line` (278-302) -/
